@@ -526,82 +526,138 @@ def mkOn (o : Oid) (rest : Path) (k : MK) : Pc :=
   | [] => afterMk k o
   | _ => .mk o rest k
 
+/-- one step of `copyDir`: the top activation `fr`, the activations below it -/
+def copyStep (d : Oid) (n : Name) (fr : Frame) (stack : List Frame) (r : Ret) : Pc :=
+  match fr.todo, r with
+  | (cn, _, false) :: todo', .oid c =>
+    .cDir d n ({ fr with todo := todo', done := fr.done ++ [(cn, c)] } :: stack)
+  | (cn, co, true) :: todo', .nodes l =>
+    .cDir d n ({ src := co, nm := cn, todo := l, done := [] } :: { fr with todo := todo' } :: stack)
+  | [], .oid c =>
+    match stack with
+    | [] => .cAdd d n c
+    | par :: stack' => .cDir d n ({ par with done := par.done ++ [(fr.nm, c)] } :: stack')
+  | _, _ => .fin .err
+
 /-- the Go control flow after a critical section returned -/
-def resume (v : Variant) : Pc → Ret → Pc
-  | .idle, _ => .idle
-  | .fin _, _ => .idle
-  | .walk _ (_ :: rest) k, .node (some (o, isDir)) => walkOn o isDir rest k
-  | .walk _ _ k, _ => .fin (failRes k)
-  | .mk _ (_ :: rest) k, .node (some (o, true)) => mkOn o rest k
-  | .mk cur (n :: rest) k, _ => .mkLocked cur n rest k
-  | .mk _ [] _, _ => .fin .err
-  | .mkLocked _ _ rest k, .oid o => mkOn o rest k
-  | .mkLocked _ _ _ _, _ => .fin .err
-  | .wLock d n vv, .unit => .wLook d n vv
-  | .wLock _ _ _, _ => .fin .err
-  | .wLook d n vv, .node none => .wAdd d n vv
-  | .wLook d _ vv, .node (some (o, isDir)) =>
-    if isDir then .wUnlockFin d .err
-    else if v.writeFileUnderDir then .wSetLocked d o vv else .wUnlockSet d o vv
-  | .wLook d _ _, _ => .wUnlockFin d .err
-  | .wAdd d _ _, .oid _ => .wUnlockFin d .ok
-  | .wAdd d _ _, _ => .wUnlockFin d .err
-  | .wUnlockFin _ r, _ => .fin r
-  | .wUnlockSet _ f vv, _ => .wSet f vv
-  | .wSet _ _, .unit => .fin .ok
-  | .wSet _ _, _ => .fin .err
-  | .wSetLocked d _ _, .unit => .wUnlockFin d .ok
-  | .wSetLocked d _ _, _ => .wUnlockFin d .err
-  | .oLock d h n, .unit => .oLook d h n
-  | .oLock _ _ _, _ => .fin .err
-  | .oLook d h n, .node none => .oAdd d h n
-  | .oLook d h _, .node (some (o, isDir)) =>
-    if isDir then .wUnlockFin d .err
-    else if v.writerUnderDir then .oOpenLocked d h o else .oUnlockOpen d h o
-  | .oLook d _ _, _ => .wUnlockFin d .err
-  | .oAdd d h _, .oid f => if v.writerUnderDir then .oOpenLocked d h f else .oUnlockOpen d h f
-  | .oAdd d _ _, _ => .wUnlockFin d .err
-  | .oUnlockOpen _ h f, _ => .oOpen h f
-  | .oOpen _ _, .unit => .fin .ok
-  | .oOpen _ _, _ => .fin .err
-  | .oOpenLocked d _ _, .unit => .wUnlockFin d .ok
-  | .oOpenLocked d _ _, _ => .wUnlockFin d .err
-  | .rData _, .data x => .fin (.data x)
-  | .rData _, _ => .fin .err
-  | .rList _, .nodes l => .fin (.list (l.map fun p => (p.1, p.2.2)))
-  | .rList _, _ => .fin .err
-  | .rOpen _ _, .unit => .fin .ok
-  | .rOpen _ _, _ => .fin .err
-  | .rmLook p n, .node (some (o, isDir)) => if isDir then .rmLen p n o else .rmDo p n
-  | .rmLook _ _, _ => .fin .err
-  | .rmLen p n _, .len k => if k = 0 then .rmDo p n else .fin .err
-  | .rmLen _ _ _, _ => .fin .err
-  | .rmDo _ _, .unit => .fin .ok
-  | .rmDo _ _, _ => .fin .err
-  | .cFile d n _, .oid c => .cAdd d n c
-  | .cFile _ _ _, _ => .fin .err
-  | .cEnter d n src, .nodes l => .cDir d n [{ src := src, nm := n, todo := l, done := [] }]
-  | .cEnter _ _ _, _ => .fin .err
-  | .cDir _ _ [], _ => .fin .err
-  | .cDir d n (fr :: stack), r =>
-    match fr.todo, r with
-    | (cn, _, false) :: todo', .oid c =>
-      .cDir d n ({ fr with todo := todo', done := fr.done ++ [(cn, c)] } :: stack)
-    | (cn, co, true) :: todo', .nodes l =>
-      .cDir d n ({ src := co, nm := cn, todo := l, done := [] } :: { fr with todo := todo' } :: stack)
-    | [], .oid c =>
-      match stack with
-      | [] => .cAdd d n c
-      | par :: stack' => .cDir d n ({ par with done := par.done ++ [(fr.nm, c)] } :: stack')
-    | _, _ => .fin .err
-  | .cAdd _ _ _, .unit => .fin .ok
-  | .cAdd _ _ _, _ => .fin .err
-  | .hW _ _ _, .unit => .fin .ok
-  | .hW _ _ _, _ => .fin .err
-  | .hR _, .data x => .fin (.data x)
-  | .hR _, _ => .fin .err
-  | .hC _ _ _, .unit => .fin .ok
-  | .hC _ _ _, _ => .fin .err
+def resume (v : Variant) (pc : Pc) (r : Ret) : Pc :=
+  match pc with
+  | .idle => .idle
+  | .fin _ => .idle
+  | .walk _ rest k =>
+    match rest, r with
+    | _ :: rest', .node (some (o, isDir)) => walkOn o isDir rest' k
+    | _, _ => .fin (failRes k)
+  | .mk cur rest k =>
+    match rest, r with
+    | _ :: rest', .node (some (o, true)) => mkOn o rest' k
+    | n :: rest', _ => .mkLocked cur n rest' k
+    | [], _ => .fin .err
+  | .mkLocked _ _ rest k =>
+    match r with
+    | .oid o => mkOn o rest k
+    | _ => .fin .err
+  | .wLock d n vv =>
+    match r with
+    | .unit => .wLook d n vv
+    | _ => .fin .err
+  | .wLook d n vv =>
+    match r with
+    | .node none => .wAdd d n vv
+    | .node (some (o, isDir)) =>
+      if isDir then .wUnlockFin d .err
+      else if v.writeFileUnderDir then .wSetLocked d o vv else .wUnlockSet d o vv
+    | _ => .wUnlockFin d .err
+  | .wAdd d _ _ =>
+    match r with
+    | .oid _ => .wUnlockFin d .ok
+    | _ => .wUnlockFin d .err
+  | .wUnlockFin _ res => .fin res
+  | .wUnlockSet _ f vv => .wSet f vv
+  | .wSet _ _ =>
+    match r with
+    | .unit => .fin .ok
+    | _ => .fin .err
+  | .wSetLocked d _ _ =>
+    match r with
+    | .unit => .wUnlockFin d .ok
+    | _ => .wUnlockFin d .err
+  | .oLock d h n =>
+    match r with
+    | .unit => .oLook d h n
+    | _ => .fin .err
+  | .oLook d h n =>
+    match r with
+    | .node none => .oAdd d h n
+    | .node (some (o, isDir)) =>
+      if isDir then .wUnlockFin d .err
+      else if v.writerUnderDir then .oOpenLocked d h o else .oUnlockOpen d h o
+    | _ => .wUnlockFin d .err
+  | .oAdd d h _ =>
+    match r with
+    | .oid f => if v.writerUnderDir then .oOpenLocked d h f else .oUnlockOpen d h f
+    | _ => .wUnlockFin d .err
+  | .oUnlockOpen _ h f => .oOpen h f
+  | .oOpen _ _ =>
+    match r with
+    | .unit => .fin .ok
+    | _ => .fin .err
+  | .oOpenLocked d _ _ =>
+    match r with
+    | .unit => .wUnlockFin d .ok
+    | _ => .wUnlockFin d .err
+  | .rData _ =>
+    match r with
+    | .data x => .fin (.data x)
+    | _ => .fin .err
+  | .rList _ =>
+    match r with
+    | .nodes l => .fin (.list (l.map fun p => (p.1, p.2.2)))
+    | _ => .fin .err
+  | .rOpen _ _ =>
+    match r with
+    | .unit => .fin .ok
+    | _ => .fin .err
+  | .rmLook p n =>
+    match r with
+    | .node (some (o, isDir)) => if isDir then .rmLen p n o else .rmDo p n
+    | _ => .fin .err
+  | .rmLen p n _ =>
+    match r with
+    | .len k => if k = 0 then .rmDo p n else .fin .err
+    | _ => .fin .err
+  | .rmDo _ _ =>
+    match r with
+    | .unit => .fin .ok
+    | _ => .fin .err
+  | .cFile d n _ =>
+    match r with
+    | .oid c => .cAdd d n c
+    | _ => .fin .err
+  | .cEnter d n src =>
+    match r with
+    | .nodes l => .cDir d n [{ src := src, nm := n, todo := l, done := [] }]
+    | _ => .fin .err
+  | .cDir d n stack =>
+    match stack with
+    | [] => .fin .err
+    | fr :: stack' => copyStep d n fr stack' r
+  | .cAdd _ _ _ =>
+    match r with
+    | .unit => .fin .ok
+    | _ => .fin .err
+  | .hW _ _ _ =>
+    match r with
+    | .unit => .fin .ok
+    | _ => .fin .err
+  | .hR _ =>
+    match r with
+    | .data x => .fin (.data x)
+    | _ => .fin .err
+  | .hC _ _ _ =>
+    match r with
+    | .unit => .fin .ok
+    | _ => .fin .err
 
 /-- bookkeeping of the thread's handle table -/
 def handleEffect (pc : Pc) (r : Ret) (hs : List Handle) : List Handle :=
